@@ -18,6 +18,23 @@ import (
 // The one for the amd64 address-mode defect kills the test process by design
 // (C02_REPRO=fault).
 
+// reproStock runs a module on a stock runtime (no custom allocator).
+func reproStock(t *testing.T, name string, compiler bool, m *wenc.Module, args ...uint64) {
+	ctx := context.Background()
+	cfg := wazero.NewRuntimeConfigInterpreter()
+	if compiler {
+		cfg = wazero.NewRuntimeConfigCompiler()
+	}
+	rt := wazero.NewRuntimeWithConfig(ctx, cfg.WithCoreFeatures(api.CoreFeaturesV2|experimental.CoreFeaturesThreads))
+	defer rt.Close(ctx)
+	mod, err := rt.Instantiate(ctx, m.Encode())
+	if err != nil {
+		t.Fatal(err)
+	}
+	res, err := mod.ExportedFunction("f").Call(ctx, args...)
+	fmt.Printf("%-60s compiler=%-5v -> res=%#x err=%v\n", name, compiler, res, err)
+}
+
 func reproRun(t *testing.T, name string, compiler bool, pages uint32, body []byte, params []wenc.ValType, results []wenc.ValType, args ...uint64) {
 	ga := guardmem.New()
 	ga.Announce = true
@@ -68,13 +85,38 @@ func TestReproducers(t *testing.T) {
 	// interpreter, 65536 pages: i32.load of the last 4 bytes -> Go runtime error
 	l4 := (&wenc.Code{}).LocalGet(0).Mem(0x28, 0, 0).End().B
 	reproRun(t, "i32.load addr=0xfffffffc", false, 65536, l4, i32, i32, 0xfffffffc)
+	// amd64 compiler: atomic rmw and/or/xor right after a call that returns in rax yields its operand
+	{
+		m := &wenc.Module{}
+		m.Mems = []wenc.Limits{{Min: 1, Max: 1, HasMax: true}}
+		m.Datas = []wenc.Data{{Mode: 0, Offset: wenc.ConstI32(8), Bytes: []byte{0x6a}}}
+		c := (&wenc.Code{}).LocalGet(0).I32Const(63).Prefixed(0xfe, 0).U32(2).U32(0).Drop().
+			LocalGet(0).LocalGet(1).Op(0xa7).Prefixed(0xfe, 0x35).U32(0).U32(0).End()
+		m.ExportFunc("f", m.AddFunc([]wenc.ValType{wenc.I32, wenc.I64}, i32, nil, c.B))
+		reproStock(t, "notify; i32.atomic.rmw8.or_u(8, wrap(1)) with mem[8]=0x6a", false, m, 8, 1)
+		reproStock(t, "notify; i32.atomic.rmw8.or_u(8, wrap(1)) with mem[8]=0x6a", true, m, 8, 1)
+	}
 	if mode == "fault" {
+		// shared memory with 0 initial pages, stock allocator: the memory base 0 read
+		// before a growing call is used afterwards: store to absolute address 5000
+		m := &wenc.Module{}
+		m.Mems = []wenc.Limits{{Min: 0, Max: 1, HasMax: true, Shared: true}}
+		g := m.AddFunc(nil, nil, nil, (&wenc.Code{}).I32Const(1).MemoryGrow().Drop().End().B)
+		c := (&wenc.Code{}).I32Const(0).I32Const(0).LocalGet(0).Prefixed(0xfc, 10).Op(0, 0). // memory.copy(0,0,n)
+													Call(g).
+													I32Const(5000).I32Const(7).Mem(0x3a, 0, 0).
+													I32Const(5000).Mem(0x2d, 0, 0).End()
+		m.ExportFunc("f", m.AddFunc(i32, i32, nil, c.B))
+		reproStock(t, "shared (memory 0 1): copy(0,0,0); call grow; store8 5000", false, m, 0)
+		if os.Getenv("C02_REPRO_WHICH") == "shared0" {
+			reproStock(t, "shared (memory 0 1): copy(0,0,0); call grow; store8 5000", true, m, 0)
+		}
 		// (a) amd64: constant base with bit 31 set held in a local, reused after a call
-		c := (&wenc.Code{}).I32Const(-0x80000000).LocalSet(1).
+		ca := (&wenc.Code{}).I32Const(-0x80000000).LocalSet(1).
 			LocalGet(1).Mem(0x2d, 0, 0).Drop().
 			Call(0).
 			LocalGet(1).Mem(0x2d, 0, 0).End().B
-		reproRun(t, "const 0x80000000 in local; load; call; load", false, 40000, c, i32, i32, 0)
-		reproRun(t, "const 0x80000000 in local; load; call; load", true, 40000, c, i32, i32, 0)
+		reproRun(t, "const 0x80000000 in local; load; call; load", false, 40000, ca, i32, i32, 0)
+		reproRun(t, "const 0x80000000 in local; load; call; load", true, 40000, ca, i32, i32, 0)
 	}
 }
